@@ -1,7 +1,7 @@
 """Contracts of valida.conditions (evaluation side): Condition._filter, ConditionLike.filter/test/test_all,
 KeyLike/IndexLike.filter, the binary operators.  Oracle: spec/meaning.py."""
 from pyvc.contracts import contract, AnyVal, JsonVal, TupleOf, DictVal, Const, Obj, FuncVal, Bool, ListOf
-from spec.prims import same, forall_idx, is_fresh, is_bool
+from spec.prims import same, forall_idx, is_fresh, is_bool, fst, snd
 from spec.meaning import Items, PreErr, CallErr, CallFalse, Meaning
 import valida.conditions as cnds
 import valida.data
@@ -49,4 +49,45 @@ contract(
                 callable_error=ListOf(fresh=True), callable_false=ListOf(fresh=True), concrete_paths=Const(None), processed=ListOf(fresh=True)),
     result_aliases=dict(source="data", condition="self"),
     serves=["C01", "C07", "C08"],
+)
+
+
+# ------------------------------------------------------------------------------------------ with paths attached (C05)
+def PairsData():
+    return Obj("valida.data:Data", _keys=TupleOf(), _values=TupleOf(), _is_list=Const(True))
+
+
+contract(
+    "valida.conditions:Condition._filter#paths",
+    variants=[dict(self=LeafShape(c)) for c in (cnds.Value, cnds.ValueLength, cnds.ValueDataType, cnds.NullCondition)],
+    params=dict(data=PairsData(), data_has_paths=Const(True), source_data=Const(None)),
+    requires=lambda data:
+        len(data._keys) == len(data._values) and len(data._values) > 0
+        and forall_idx(len(data._values), lambda j: isinstance(data._values[j], tuple) and len(data._values[j]) == 2),
+    modifies=["data._values"],
+    invariants={
+        "for datum in getattr(data, self.DATUM_TYPE.value)()":
+            lambda k, xs, self, processed, pre_processor_error, callable_error, callable_false:
+                len(processed) == k and len(pre_processor_error) == k and len(callable_error) == k
+                and len(callable_false) == k
+                and forall_idx(k, lambda j: same(pre_processor_error[j], PreErr(self, fst(xs[j])))
+                               and same(callable_error[j], CallErr(self, fst(xs[j])))
+                               and same(callable_false[j], CallFalse(self, fst(xs[j])))),
+    },
+    ensures=lambda self, data, result, old:
+        type(result) is valida.data.FilteredData and result.source is data
+        and len(result.result) == len(old["data._values"]) and len(result.concrete_paths) == len(old["data._values"])
+        and len(data._values) == len(old["data._values"])
+        and forall_idx(len(old["data._values"]), lambda j:
+                       same(result.result[j], Meaning(self, fst(old["data._values"][j])))
+                       and same(data._values[j], fst(old["data._values"][j]))
+                       and same(result.concrete_paths[j], snd(old["data._values"][j]))),
+    raises={},
+    fuel=True,
+    returns=Obj("valida.data:FilteredData", fresh=True, result=ListOf(fresh=True), pre_processor_error=ListOf(fresh=True),
+                callable_error=ListOf(fresh=True), callable_false=ListOf(fresh=True), concrete_paths=TupleOf(), processed=ListOf(fresh=True)),
+    result_aliases=dict(source="data", condition="self"),
+    serves=["C05"],
+    note="the selection arrives as (value, path) pairs: one verdict per pair on its value; values and paths are split, aligned "
+         "(the leaf case of the `cond.filter` interface used by RuleTest._test, for conditions without data-path arguments)",
 )
